@@ -19,7 +19,7 @@ def check_loads(ctx, node, prog, bag):
             ctx.count(f"outcome_{out.kind}")
             if out.kind in ("exc", "impure"):
                 key = escape_key(out.exc)
-                if key.startswith("TypeError@iter_loader") and "unhashable" in repr(out.exc):
+                if key.startswith("TypeError@iter_loader") and ("unhashable" in repr(out.exc) or "Cannot hash" in repr(out.exc)):
                     key = "TypeError-unhashable-element@set-building-iterable-loader"   # one mechanism, four generated closures
                 ctx.violation(key, f"{node.src} <- {label} = {d!r:.120} [{mode_name(dt, sc)}]: escaped {type(out.exc).__name__}: {str(out.exc)[:160]}",
                               {"type": node.src, "datum": repr(d)[:400], "mode": mode_name(dt, sc), "exception": repr(out.exc)[:600]})
@@ -150,8 +150,56 @@ def _one(node, datum):
     return run
 
 
+def _configured_providers(ctx):
+    """Builtin providers that are switched on through the recipe (still 'only builtin providers'): enum / flag representations with
+    their options, datetime by format / timestamp, default_dict - each x the whole hostile pool, bare and inside List / Dict / Optional."""
+    import datetime as dtm  # noqa: PLC0415
+    import itertools  # noqa: PLC0415
+    import typing  # noqa: PLC0415
+
+    from adaptix import (NameStyle, date_by_timestamp, datetime_by_format, datetime_by_timestamp, default_dict, enum_by_name, enum_by_value,  # noqa: PLC0415
+                         flag_by_member_names)
+
+    extra_data = [("['R',['W']]", lambda: ["R", ["W"]]), ("[{'R':1}]", lambda: [{"R": 1}]), ("[set()]", lambda: [set()]), ("[bytearray]", lambda: [bytearray(b"R")]),
+                  ("['R','R']", lambda: ["R", "R"]), ("'R'", lambda: "R"), ("sNaN", lambda: __import__("decimal").Decimal("sNaN")), ("[sNaN]", lambda: [__import__("decimal").Decimal("sNaN")]),
+                  ("1e20", lambda: 1e20), ("-1e20", lambda: -1e20), ("'2020-13-45'", lambda: "2020-13-45"), ("huge-ts", lambda: 10**18), ("nan-ts", lambda: float("nan"))]
+    bag = [(lbl, fac, lbl in ONE_SHOT) for lbl, fac in hostile.POOL] + [(lbl, fac, False) for lbl, fac in extra_data]
+    configs = []
+    for single, dups, compound in itertools.product([False, True], repeat=3):
+        configs.append((f"flag_by_member_names({single},{dups},{compound})", spec.FRWX, [flag_by_member_names(allow_single_value=single, allow_duplicates=dups, allow_compound=compound)]))
+    configs += [
+        ("flag_by_member_names(style)", spec.FZ, [flag_by_member_names(name_style=NameStyle.CAMEL)]),
+        ("enum_by_name", spec.EInt, [enum_by_name()]), ("enum_by_name(style,map)", spec.EInt, [enum_by_name(name_style=NameStyle.LOWER_KEBAB, map={"A": "first"})]),
+        ("enum_by_value(int)", spec.EInt, [enum_by_value(spec.EInt, tp=int)]), ("enum_by_value(str)", spec.EStr, [enum_by_value(spec.EStr, tp=str)]),
+        ("enum_exact(unhashable values)", _unhashable_enum(), []), ("enum_exact(mixed)", spec.EMix, []),
+        ("datetime_by_format", dtm.datetime, [datetime_by_format(fmt="%Y-%m-%d")]), ("datetime_by_timestamp", dtm.datetime, [datetime_by_timestamp()]),
+        ("date_by_timestamp", dtm.date, [date_by_timestamp()]), ("default_dict", typing.DefaultDict[str, int], [default_dict(typing.DefaultDict[str, int], default_factory=int)]),
+    ]
+    for name, tp, recipe in configs:
+        for wrap_name, hint in (("bare", tp), ("List", typing.List[tp]), ("Dict", typing.Dict[str, tp]), ("Optional", typing.Optional[tp])):
+            node = spec.Node(hint, f"{name}/{wrap_name}")
+            node.kind = "configured"
+            prog = Program(node, recipe)
+            ctx.count("configured_provider_programs")
+
+            def place(fac, wrap_name=wrap_name):
+                if wrap_name == "List":
+                    return lambda: [fac()]
+                if wrap_name == "Dict":
+                    return lambda: {"k": fac()}
+                return fac
+            check_loads(ctx, node, prog, [(lbl, place(fac), os_) for lbl, fac, os_ in bag])
+
+
+def _unhashable_enum():
+    import enum  # noqa: PLC0415
+
+    return enum.Enum("EUnhashable", {"A": [1, 2], "B": {"k": 1}, "C": 7})
+
+
 I = spec.IntT
 DIRECTED = {
+    "configured-builtin-providers": _configured_providers,
     "scalar-table-x-pool": _full_pool(spec._SCALARS),
     "containers-x-pool": _full_pool([
         spec.IterT("List", I()), spec.IterT("Set", spec.AnyT()), spec.IterT("FrozenSet", spec.AnyT()), spec.IterT("Deque", I()),
